@@ -229,7 +229,9 @@ ExpC07(ns) ==
   LET A == SortedSeq(OfClass(ns, "arg"))
       MethodOf(ai) == ns[AtPath(ns, SubSeq(ns[ai].p, 1, Len(ns[ai].p) - 1))]
       RECURSIVE Cat_(_)
-      Cat_(k) == IF k > Len(A) THEN <<>> ELSE ArgItems(ns, A[k], MethodOf(A[k]).ow) \o Cat_(k+1)
+      \* oneway "explicit or inherited from a oneway interface": the interface's own flag counts, whether or not
+      \* the tree's per-method flag was set
+      Cat_(k) == IF k > Len(A) THEN <<>> ELSE ArgItems(ns, A[k], MethodOf(A[k]).ow \/ ns[ItemIx(ns)].ow) \o Cat_(k+1)
   IN Cat_(1)
 
 \* ---- C08
@@ -296,7 +298,7 @@ ExpC10(ns, pows) ==
         LET m == ns[M[k]]
             rt == ns[Child(ns, M[k], "t")]
         IN (IF iow /\ Written(pows, m.p) THEN <<Item("red_ow", "W", {m.owr}, {})>> ELSE <<>>)
-           \o (IF m.ow /\ rt.a # "void" THEN <<Item("ow_ret", "E", NameOrFull(rt), {})>> ELSE <<>>)
+           \o (IF (m.ow \/ iow) /\ rt.a # "void" THEN <<Item("ow_ret", "E", NameOrFull(rt), {})>> ELSE <<>>)
       RECURSIVE Cat_(_)
       Cat_(k) == IF k > Len(M) THEN <<>> ELSE One(k) \o Cat_(k+1)
   IN Cat_(1)
